@@ -111,7 +111,7 @@ def monitor(tr, case):
         fm, bm, want_T = 0, 0, 100.0
     if abs(T - want_T) > 1e-12:
         bad("threshold_not_as_configured", "threshold in effect %.6g, configured %.6g" % (T, want_T))
-    fac = 1e9 / (30.0 * c["KCALS_DAILY"] * c["POP"]) * 100.0
+    fac = 1e9 / (30.0 * float(c["inputs"]["NUTRITION"]["KCALS_DAILY"]) * float(c["inputs"]["POP"])) * 100.0
     p3 = float(tr.result.percent_people_fed)
     full = len(tr.lps) == 3
     p1 = float(tr.lps[0].interp.percent_people_fed) if len(tr.lps) >= 2 and tr.lps[0].interp is not None else None
